@@ -7,6 +7,7 @@ EXTRA2 = {'C01-m4': ['C07'], 'C06-m4': ['C07'], 'C02-m3': ['C20'], 'C02-m4': ['C
           'C04-m3': ['C04'], 'C04-m4': ['C11'], 'C08-m3': ['C02'], 'C08-m4': ['C13'], 'C10-m3': ['C10'],
           'C13-m3': ['C07'], 'C14-m3': ['C14', 'C15'], 'C15-m4': ['C15', 'C14'], 'C17-m4': ['C08'],
           'C19-m3': ['C19'], 'C01-m3': ['C04'], 'C05-m3': ['C15'], 'C05-m4': ['C20'], 'C06-m3': ['C01', 'C04'], 'C10-m3': ['C10', 'C19']}
+EXTRA4 = {'C06-m5': ['C07'], 'C10-m5': ['C19', 'C10'], 'C12-m6': ['C18'], 'C18-m6': ['C18']}
 EXTRA3 = {'C03-m5': ['C02', 'C03'], 'C08-m6': ['C02'], 'C01-m5': ['C07', 'C01'], 'C01-m6': ['C01', 'C04'], 'C07-m6': ['C07']}
 EXTRA = {'C03-m1': ['C10'], 'C06-m2': ['C04'], 'C17-m2': ['C04', 'C17'], 'C16-m1': ['C09', 'C16'], 'C14-m1': ['C14', 'C15'], 'C15-m1': ['C15', 'C14']}
 res = {}
@@ -24,7 +25,7 @@ for n in names:
     meta = json.load(open(os.path.join(ROOT, 'seeded', n, 'meta.json')))
     if str(meta.get('status', '')).startswith('neutralised'):
         res[n] = dict(status='neutralised'); continue
-    pids = EXTRA.get(n) or EXTRA2.get(n) or EXTRA3.get(n) or [meta['property']]
+    pids = EXTRA.get(n) or EXTRA2.get(n) or EXTRA3.get(n) or (EXTRA4.get(n) if meta.get('round') == 2 and n.endswith(('m5', 'm6')) else None) or [meta['property']]
     t0 = time.time()
     p = subprocess.run([sys.executable, os.path.join(ROOT, 'tools', 'seeded.py'), 'run', n] + pids + (['--scratch', f'/tmp/pyrates-verif-seed-{n}'] if scratch else []), text=True, stdout=subprocess.PIPE, stderr=subprocess.STDOUT)
     out = [l for l in p.stdout.splitlines() if n in l]
